@@ -1789,6 +1789,18 @@ def orc_c20(case, obs):
                 exp = pkt + gen_bytes(bl, seed)[len(pkt):]
                 if ob != "ok " + hx(exp):
                     bad.append("generate(%s) wrote %s..., the codec layout is %s..." % (op[:50], ob[:40], hx(pkt)[:40]))
+        elif t[0] == "DECAP" and case.name.startswith(("UTL.", "utl")):
+            data = tok_bytes(t[1])
+            p = parse_packet(data)
+            if isinstance(p, str):
+                continue
+            w, d = kv(ob)
+            if p.kind == "C":
+                if w[:2] != ["ok", "completed"] or d.get("data") != hx(p.payload) or d.get("label") != p.label:
+                    bad.append("the decapsulator refuses a well-formed complete packet / other field values: %s" % ob[:80])
+            elif p.kind == "F" and p.total > len(p.payload):
+                if w[:2] != ["ok", "fragmented"] or d.get("label") != p.label:
+                    bad.append("the decapsulator refuses a well-formed first fragment (total %d, payload %d): %s" % (p.total, len(p.payload), ob[:80]))
         elif t[0] == "UPARSE":
             data = tok_bytes(t[2])
             p = parse_packet(data)
